@@ -1,12 +1,16 @@
 #!/bin/bash
-# tools/seedrun.sh <seeded-name> [property ...]   applies the seeded change to /repo, runs the quick checks, undoes it
+# tools/seedrun.sh <seeded-name> [property ...]
+# Applies the seeded change to a scratch worktree of /repo (removed afterwards; /repo itself is not touched, so this can
+# run next to other checks), runs the quick checks against that tree (VERIF_REPO) and prints what they report.
 N=$1; shift
 P=${@:-${N%%-*}}
 cd /verif
-git -C /repo diff --quiet || { echo "repo dirty"; exit 2; }
-git -C /repo apply /verif/seeded/$N/patch.diff || exit 2
+WT=/tmp/sr-$N-$$
+git -C /repo worktree remove --force $WT 2>/dev/null; rm -rf $WT
+git -C /repo worktree add -q --detach $WT HEAD || exit 2
+trap "git -C /repo worktree remove --force $WT 2>/dev/null; rm -rf $WT" EXIT
+(cd $WT && (git apply /verif/seeded/$N/patch.diff 2>/dev/null || patch -p1 --fuzz=3 -s < /verif/seeded/$N/patch.diff)) || { echo "$N: PATCH-DOES-NOT-APPLY"; exit 2; }
 for p in $P; do
-  out=$(./check $p --tier ${TIER:-quick} 2>&1); rc=$?
+  out=$(VERIF_REPO=$WT ./check $p --tier ${TIER:-quick} 2>&1); rc=$?
   echo "$N $p rc=$rc $(echo "$out" | grep -c '^VIOLATION') violation(s) :: $(echo "$out" | grep 'violation:' | head -2 | cut -c1-220 | tr '\n' ' ')"
 done
-git -C /repo checkout -- .
